@@ -44,7 +44,8 @@ def cases(draw):
         "objective_sel": draw(st.integers(0, max(0, n - 1))),
         "subset": draw(st.one_of(st.none(), st.lists(st.integers(0, max(0, n - 1)), min_size=1, max_size=3, unique=True))),
         "knock": draw(st.lists(st.integers(0, max(0, n - 1)), max_size=2, unique=True)),
-        "reference": draw(st.sampled_from(["optimize", "optimize", "pfba", "default"])),
+        "reference": draw(st.sampled_from(["optimize", "optimize", "pfba", "default", "pfba_reordered", "handmade"])),
+        "ref_perm": draw(st.permutations(list(range(9)))),
         "delta": draw(st.sampled_from([0.03, 0.03, 0.1, 0.5])),
         "epsilon": draw(st.sampled_from([1e-3, 1e-3, 0.5, 1])),
     }
@@ -122,6 +123,21 @@ def check_case(case, ctx):
         return {"nontrivial": False, "classes": classes + ["wt-" + wt.status]}
     if case["reference"] == "pfba":
         ref_sol = pfba(model)
+    elif case["reference"] == "pfba_reordered":
+        # a reference whose flux Series is not in model order (pfba(reactions=...) keeps the requested order)
+        order = [rids[i] for i in case.get("ref_perm", range(len(rids))) if i < len(rids)]
+        ref_sol = pfba(model, reactions=[model.reactions.get_by_id(r) for r in order])
+        classes.append("reference-not-in-model-order")
+    elif case["reference"] == "handmade":
+        # a hand-built Solution (e.g. measured fluxes): other order plus an entry for a reaction the model does not have
+        import pandas as pd
+        from cobra import Solution
+
+        base = model.optimize()
+        order = [rids[i] for i in case.get("ref_perm", range(len(rids))) if i < len(rids)]
+        fl = pd.Series({**{"not_in_model": 3.5}, **{r: float(base.fluxes[r]) for r in order}})
+        ref_sol = Solution(objective_value=base.objective_value, status="optimal", fluxes=fl)
+        classes.append("reference-not-in-model-order")
     else:
         ref_sol = model.optimize()
     reference = {rid: float(ref_sol.fluxes[rid]) for rid in rids}
